@@ -301,10 +301,30 @@ pub fn load_report(_req: &Value) -> Value {
     json!({"harness_error": "unused"})
 }
 
-/// `jaqmon phase <requests.jsonl>`: for each request, load+compile, then issue the marker
-/// syscall `access("/VERIF/EXEC-PHASE/<id>")`, execute, then `access("/VERIF/EXEC-DONE/<id>")`.
-/// Meant to run under strace (C06).
+/// `jaqmon phase <requests.jsonl> [out]`: for each request, load+compile, then issue the marker
+/// syscall `statx("/VERIF/EXEC-PHASE/<id>")`, then for each case k `statx("/VERIF/CASE/<id>/<k>")`
+/// and execute it, then `statx("/VERIF/EXEC-DONE/<id>")`; `/VERIF/ALL-DONE` at the very end.
+/// Everything the process does between a CASE marker and the next marker is done by jaq's
+/// execution of that (program, input). Meant to run under strace (C06). The work runs in one
+/// thread with a big stack, created before the first marker.
 pub fn phase(args: &[String]) {
+    let args: Vec<String> = args.to_vec();
+    let stack = std::env::var("JAQMON_STACK_MB")
+        .ok()
+        .and_then(|s| s.parse::<usize>().ok())
+        .unwrap_or(256);
+    let t = std::thread::Builder::new()
+        .stack_size(stack << 20)
+        .spawn(move || phase_run(&args))
+        .expect("spawn");
+    let _ = t.join();
+}
+
+fn phase_marker(s: &str) {
+    let _ = std::path::Path::new(s).exists();
+}
+
+fn phase_run(args: &[String]) {
     let path = args.first().cloned().unwrap_or_default();
     let text = std::fs::read_to_string(&path).unwrap_or_default();
     let reqs: Vec<Value> = text
@@ -336,18 +356,32 @@ pub fn phase(args: &[String]) {
                 continue;
             }
         };
-        let _ = std::path::Path::new(&format!("/VERIF/EXEC-PHASE/{id}")).exists();
+        phase_marker(&format!("/VERIF/EXEC-PHASE/{id}"));
         let take = req["take"].as_u64().unwrap_or(64);
-        let rs: Vec<Value> = req["cases"]
-            .as_array()
-            .unwrap_or(&empty)
-            .iter()
-            .map(|case| crate::guarded(|| eval::run_case(&filter, &vals, case, take)))
-            .collect();
-        let _ = std::path::Path::new(&format!("/VERIF/EXEC-DONE/{id}")).exists();
-        results.push(json!({"id": id, "results": rs}));
+        let full = req["full"].as_bool().unwrap_or(false);
+        let mut rs: Vec<Value> = Vec::new();
+        let mut ends: Vec<Value> = Vec::new();
+        for (k, case) in req["cases"].as_array().unwrap_or(&empty).iter().enumerate() {
+            phase_marker(&format!("/VERIF/CASE/{id}/{k}"));
+            let r = crate::guarded(|| eval::run_case(&filter, &vals, case, take));
+            let end = if r.get("panic").is_some() {
+                json!("panic")
+            } else {
+                r["end"][0].clone()
+            };
+            ends.push(json!([end, r["outs"].as_array().map_or(0, |o| o.len())]));
+            if full {
+                rs.push(r);
+            }
+        }
+        phase_marker(&format!("/VERIF/EXEC-DONE/{id}"));
+        if full {
+            results.push(json!({"id": id, "ends": ends, "results": rs}));
+        } else {
+            results.push(json!({"id": id, "ends": ends}));
+        }
     }
-    let _ = std::path::Path::new("/VERIF/ALL-DONE").exists();
+    phase_marker("/VERIF/ALL-DONE");
     let text: String = results.iter().map(|r| format!("{r}\n")).collect();
     match out_path {
         Some(p) => {
